@@ -48,6 +48,12 @@ def coq_ty(t):
         return "TConflict"
     if h in ("Pair", "Dom"):
         return "(T%s %s %s)" % (h, coq_ty(norm(t[1])), coq_ty(norm(t[2])))
+    if h == "SetTomb":
+        return "TSetTomb"
+    if h == "MapTomb":
+        return "(TMapTomb %s)" % coq_ty(norm(t[1]))
+    if h == "UF":
+        return "TUF"
     raise ValueError(t)
 
 
@@ -74,6 +80,13 @@ def coq_val(t, v):
         return "(%s, %s)" % (coq_val(t[1], v[0]), coq_val(t[2], v[1]))
     if h == "Vec":
         return "[" + "; ".join(coq_val(t[1], x) for x in v) + "]"
+    if h == "SetTomb":
+        return "([%s], [%s])" % ("; ".join("%d" % x for x in v[0]), "; ".join("%d" % x for x in v[1]))
+    if h == "MapTomb":
+        return "([%s], [%s])" % ("; ".join("(%d, %s)" % (k, coq_val(t[1], x)) for k, x in v[0]),
+                                 "; ".join("%d" % x for x in v[1]))
+    if h == "UF":
+        return "[" + "; ".join("(%d, %d)" % (k, p) for k, p in v) + "]"
     raise ValueError(t)
 
 
@@ -92,7 +105,7 @@ def key_total(t):
     h = t[0]
     if h == "Map":
         return key_total(t[2])
-    if h in ("Bot", "Top", "Vec"):
+    if h in ("Bot", "Top", "Vec", "MapTomb"):
         return key_total(t[1])
     if h == "Pair":
         return key_total(t[1]) and key_total(t[2])
@@ -108,7 +121,7 @@ def has_top(t):
         return True
     if h == "Max":
         return t[1] != "unb"
-    if h in ("Set", "Map", "Vec"):
+    if h in ("Set", "Map", "Vec", "SetTomb", "MapTomb", "UF"):
         return False
     if h == "Bot":
         return has_top(t[1])
@@ -121,7 +134,7 @@ def top_sound(t):
     h = t[0]
     if h == "Map":
         return top_sound(t[2])
-    if h in ("Bot", "Vec"):
+    if h in ("Bot", "Vec", "MapTomb"):
         return top_sound(t[1])
     if h == "Top":
         return (not has_top(t[1])) and top_sound(t[1])
@@ -173,7 +186,49 @@ def gen_value(rng, t, size=3):
         return [gen_value(rng, t[1], size), gen_value(rng, t[2], size)]
     if h == "Vec":
         return [gen_value(rng, t[1], max(1, size - 1)) for _ in range(rng.below(size + 1))]
+    if h in ("SetTomb", "MapTomb"):
+        # well-formed: live items / keys and tombstones disjoint
+        items = rng.shuffle(KEYS)
+        nl, nt = rng.below(size + 1), rng.below(size + 1)
+        live, tomb = sorted(items[:nl]), sorted(items[nl:nl + nt])
+        if h == "SetTomb":
+            return [live, tomb]
+        return [[[k, gen_value(rng, t[1], max(1, size - 1))] for k in live], tomb]
+    if h == "UF":
+        return gen_forest(rng, size)
     raise ValueError(t)
+
+
+def uf_roots(v):
+    """root of every mentioned item in a forest-shaped parent map [[k, p]..]"""
+    par = {k: p for k, p in v}
+
+    def root(x):
+        seen = 0
+        while par.get(x, x) != x and seen < 64:
+            x = par[x]
+            seen += 1
+        return x
+
+    return root
+
+
+def gen_forest(rng, size=3):
+    """a forest-shaped parent map (the only well-formed union-find values): every edge points to
+    an item earlier in a random order, so there is no cycle; now and then a self entry"""
+    order = rng.shuffle(KEYS)
+    n = rng.below(size + 2)
+    out = {}
+    for i in range(1, len(order)):
+        if len(out) >= n:
+            break
+        if rng.chance(2, 3):
+            out[order[i]] = order[rng.below(i)]
+    if rng.chance(1, 6):
+        k = rng.choice(KEYS)
+        if k not in out:
+            out[k] = k
+    return [[k, out[k]] for k in sorted(out)]
 
 
 def perturb(rng, t, v, size=3):
@@ -238,6 +293,41 @@ def perturb(rng, t, v, size=3):
         else:
             v.pop()
         return v
+    if h in ("SetTomb", "MapTomb"):
+        live = [list(e) if h == "MapTomb" else e for e in v[0]]
+        tomb = list(v[1])
+        keyof = (lambda e: e[0]) if h == "MapTomb" else (lambda e: e)
+        r = rng.below(5)
+        x = rng.choice(KEYS)
+        if r == 0 and tomb:
+            tomb.remove(rng.choice(tomb))
+        elif r == 1:
+            # delete x: tombstone it and drop it from the live part (keeps well-formedness)
+            if x not in tomb:
+                tomb = sorted(tomb + [x])
+            live = [e for e in live if keyof(e) != x]
+        elif r == 2 and live:
+            live.pop(rng.below(len(live)))
+        elif r == 3 and h == "MapTomb" and live:
+            i = rng.below(len(live))
+            live[i] = [live[i][0], perturb(rng, t[1], live[i][1], size)]
+        elif x not in tomb and x not in [keyof(e) for e in live]:
+            live = sorted(live + [[x, gen_value(rng, t[1], max(1, size - 1))] if h == "MapTomb" else x],
+                          key=keyof)
+        return [live, tomb]
+    if h == "UF":
+        v = [list(e) for e in v]
+        r = rng.below(3)
+        if r == 0 and v:
+            v.pop(rng.below(len(v)))      # dropping an entry of a forest leaves a forest
+            return v
+        root = uf_roots(v)
+        keys = [k for k, _ in v]
+        x, p = rng.choice(KEYS), rng.choice(KEYS)
+        # hang a root that has no entry yet below some item of another tree
+        if x not in keys and root(p) != x and x != p:
+            v.append([x, p])
+        return sorted(v)
     raise ValueError(t)
 
 
@@ -312,6 +402,24 @@ def enum_values(t, limit=60):
             return None
         out = [[]] + [[x] for x in inner] + [[x, y] for x in inner for y in inner]
         return cap(out)
+    if h == "SetTomb":
+        # items {0,1}: each absent / live / tombstoned
+        return [[[k for k, s in zip((0, 1), st) if s == 1], [k for k, s in zip((0, 1), st) if s == 2]]
+                for st in itertools.product((0, 1, 2), repeat=2)]
+    if h == "MapTomb":
+        inner = enum_values(t[1], limit)
+        if inner is None:
+            return None
+        per_key = [("absent", None), ("tomb", None)] + [("live", x) for x in inner]
+        out = []
+        for s0, s1 in itertools.product(per_key, repeat=2):
+            live = [[k, s[1]] for k, s in zip((0, 1), (s0, s1)) if s[0] == "live"]
+            tomb = [k for k, s in zip((0, 1), (s0, s1)) if s[0] == "tomb"]
+            out.append([live, tomb])
+        return cap(out)
+    if h == "UF":
+        return [[], [[0, 0]], [[1, 0]], [[0, 1]], [[2, 0]], [[2, 1]], [[1, 0], [2, 0]], [[1, 0], [2, 1]],
+                [[0, 2], [1, 2]], [[0, 1], [2, 1]]]
     raise ValueError(t)
 
 
@@ -373,6 +481,21 @@ def shrink_value(t, v):
         for i, x in enumerate(v):
             for sx in shrink_value(t[1], x):
                 yield v[:i] + [sx] + v[i + 1:]
+        return
+    if h in ("SetTomb", "MapTomb"):
+        live, tomb = v
+        for i in range(len(live)):
+            yield [live[:i] + live[i + 1:], tomb]
+        for i in range(len(tomb)):
+            yield [live, tomb[:i] + tomb[i + 1:]]
+        if h == "MapTomb":
+            for i, (k, x) in enumerate(live):
+                for sx in shrink_value(t[1], x):
+                    yield [live[:i] + [[k, sx]] + live[i + 1:], tomb]
+        return
+    if h == "UF":
+        for i in range(len(v)):
+            yield v[:i] + v[i + 1:]
         return
 
 
